@@ -322,7 +322,7 @@ def placement_rules(ctx):
     R.check("C07-D2b placement", has_filter, "entries of other domains are skipped (filter compares the entry's own domain)", mod=fi.module,
             node=fi.node, function=fq, expected="if storage_domain is not None and storage_domain != entry['domain']: continue",
             found="filter not recognised")
-    present = any(g == App("in", (role, envs)) and pol for g, pol in guards)
+    present = any(g == App("in", (role, envs)) and pol for g, pol in generic.norm_guards(guards))
     R.check("C07-D2b placement", present, "only roles that hold an envelope are written", mod=fi.module, node=fi.node, function=fq,
             expected="if entry['role'] in self._envelopes", found=f"{guards}"[:200])
     merges = [x.args[0] for x, g in _with_guards(body) if isinstance(x, App) and x.op == "eff:call" and isinstance(x.args[0], App)
@@ -486,15 +486,18 @@ def sever_rule(ctx):
                     return None
                 out |= inner
             elif e.op == "eff:if":
-                a1, a2 = popped_names(e.args[1].args, guard_names), popped_names(e.args[2].args, guard_names)
-                if a1 is None or a2 is None:
-                    return None
                 # guarded by membership in a constant list: the then-branch removes exactly those names
                 g = e.args[0]
                 if isinstance(g, App) and g.op == "in" and isinstance(g.args[1], Const) and isinstance(g.args[0], App) and g.args[0].op == "elem":
                     a1 = popped_names(e.args[1].args, set(g.args[1].v))
-                    out |= (a1 or set())
+                    a2 = popped_names(e.args[2].args, guard_names)
+                    if a1 is None or a2 is None:
+                        return None
+                    out |= a1
                 else:
+                    a1, a2 = popped_names(e.args[1].args, guard_names), popped_names(e.args[2].args, guard_names)
+                    if a1 is None or a2 is None:
+                        return None
                     out |= (a1 & a2)  # only what both branches remove is removed on every path
             elif e.op in ("eff:call", "eff:delitem"):
                 c = e.args[0] if e.op == "eff:call" else e
